@@ -84,6 +84,7 @@ pub fn cases(tier: Tier) -> Vec<GCase> {
                     vec![("+2".into(), v + fe(2)), ("+3".into(), v + fe(3)), ("x2".into(), v + v), ("-4".into(), v - fe(4))]
                 }));
                 c.bound2 = tier == Tier::Thorough && w <= 12;
+                c.rewire = w <= 17 || tier == Tier::Thorough;
                 // prover confirmation on a subset in quick
                 c.confirm = tier == Tier::Thorough || e == Entry::Bits;
                 out.push(c);
